@@ -48,6 +48,8 @@ pub struct Rep {
 }
 
 pub struct Exec {
+    /// join of everything written through `rwrite ... join` since the last `rnew 0`
+    pub written: BTreeMap<Vec<u8>, Vec<u8>>,
     /// real snapshots taken by `snap`, with the ranges they described when taken
     pub snaps: HashMap<u64, (Box<dyn AnySnap>, Vec<OwnedRange>)>,
     /// C03-C07 hypothesis check: page digest -> canonical description of the page pre-image
@@ -165,6 +167,7 @@ impl<'a> TraceCheck<'a> {
 impl Exec {
     pub fn new(oracle_every: usize) -> Self {
         Exec {
+            written: BTreeMap::new(),
             snaps: HashMap::new(),
             preimages: HashMap::new(),
             reps: HashMap::new(),
@@ -507,6 +510,56 @@ impl Exec {
             self.fail(p, m);
         }
         Ok(s)
+    }
+
+    /// one pull `i <- j` on the real trees; returns (ranges, fetched entries) or None on a panic
+    fn pull_internal(&mut self, i: u64, j: u64, join: bool) -> Option<(OwnedDiff, Vec<(Vec<u8>, Vec<u8>)>)> {
+        // both sides regenerate their hashes, then the receiver diffs borrowed page ranges
+        let out = catch_unwind(AssertUnwindSafe(|| {
+            self.reps.get_mut(&i).unwrap().tree.hash();
+            self.reps.get_mut(&j).unwrap().tree.hash();
+            let mut c16 = vec![];
+            let d = self.reps[&i].tree.diff_with(self.reps[&j].tree.as_ref(), &mut c16);
+            (d, c16)
+        }));
+        let (d, c16) = match out {
+            Ok(x) => x,
+            Err(_) => {
+                self.fail("C15", "panic while hashing / diffing during a pull".into());
+                return None;
+            }
+        };
+        for mmsg in c16 {
+            self.fail("C16", mmsg);
+        }
+        let ranges = match d {
+            DiffOut::Ok(d) => d,
+            _ => {
+                self.fail("C15", "diff during a pull panicked or was not serialisable".into());
+                return None;
+            }
+        };
+        let mut fetched: Vec<(Vec<u8>, Vec<u8>, Vec<u8>)> = vec![];
+        for (k, (kd, v)) in self.reps[&j].store.iter() {
+            if ranges.iter().any(|r| r.0 <= *k && *k <= r.1) {
+                fetched.push((k.clone(), kd.clone(), v.clone()));
+            }
+        }
+        let rep = self.reps.get_mut(&i).unwrap();
+        for (k, kd, v) in &fetched {
+            let merged = match rep.store.get(k) {
+                Some((_, old)) if join && old >= v => old.clone(),
+                _ => v.clone(),
+            };
+            let res = catch_unwind(AssertUnwindSafe(|| rep.tree.ups(k, kd, &merged, None)));
+            if !matches!(res, Ok(Ok(()))) {
+                self.fail("C15", "upsert panicked while absorbing fetched keys".into());
+                return None;
+            }
+            rep.store.insert(k.clone(), (kd.clone(), merged));
+        }
+        let f: Vec<(Vec<u8>, Vec<u8>)> = fetched.iter().map(|x| (x.0.clone(), x.2.clone())).collect();
+        Some((ranges, f))
     }
 
     pub fn run_line(&mut self, line: &str) -> String {
@@ -900,7 +953,39 @@ impl Exec {
                     }
                 }
                 let tree = make_tree(base, n, &Kind::Table, &Ctor::Builder, &KeyKind::Bytes).map_err(|e| format!("bad-op {e}"))?;
+                if r == 0 {
+                    self.reps.clear();
+                    self.written.clear();
+                }
                 self.reps.insert(r, Rep { tree, store: BTreeMap::new() });
+                Ok("ok".into())
+            }
+            ["same", a, b] => {
+                // oracle marker: two trees built from the same configuration and content must be
+                // interchangeable (same root hash, same page ranges)
+                self.count("same");
+                let (sa, sb) = match (self.trees.get(&num(a)?), self.trees.get(&num(b)?)) {
+                    (Some(x), Some(y)) => (x, y),
+                    _ => return Err(bad()),
+                };
+                let (ta, tb) = match (&sa.tree, &sb.tree) {
+                    (Some(x), Some(y)) => (x, y),
+                    _ => return Ok("ok".into()),
+                };
+                let bad_ = ta.cached() != tb.cached() || ta.ser() != tb.ser() || ta.cached().is_none();
+                self.tick("C18");
+                if bad_ {
+                    self.fail("C18", "two trees with the same hasher, base and content are not interchangeable (constructor / builder order / clone)".into());
+                }
+                Ok("ok".into())
+            }
+            ["rclone", dst, src] => {
+                // a replica bootstrapped by cloning another one (tree `Clone` + store copy)
+                self.count("rclone");
+                let (dst, src) = (num(dst)?, num(src)?);
+                let s = self.reps.get(&src).ok_or_else(bad)?;
+                let rep = Rep { tree: s.tree.clone_box(), store: s.store.clone() };
+                self.reps.insert(dst, rep);
                 Ok("ok".into())
             }
             ["rwrite", r, k, kd, v, m] => {
@@ -915,12 +1000,18 @@ impl Exec {
                 let rep = self.reps.get_mut(&r).ok_or_else(bad)?;
                 let merged = match rep.store.get(&k) {
                     Some((_, old)) if join && *old >= v => old.clone(),
-                    _ => v,
+                    _ => v.clone(),
                 };
                 let res = catch_unwind(AssertUnwindSafe(|| rep.tree.ups(&k, &kd, &merged, None)));
                 match res {
                     Ok(Ok(())) => {
-                        rep.store.insert(k, (kd, merged));
+                        rep.store.insert(k.clone(), (kd, merged));
+                        if join {
+                            let e = self.written.entry(k).or_insert_with(|| v.clone());
+                            if *e < v {
+                                *e = v;
+                            }
+                        }
                         Ok("ok".into())
                     }
                     Ok(Err(e)) => Err(format!("bad-op {e}")),
@@ -941,53 +1032,77 @@ impl Exec {
                 if i == j || !self.reps.contains_key(&i) || !self.reps.contains_key(&j) {
                     return Err(bad());
                 }
-                // both sides regenerate their hashes, then the receiver diffs borrowed page ranges
-                let out = catch_unwind(AssertUnwindSafe(|| {
-                    self.reps.get_mut(&i).unwrap().tree.hash();
-                    self.reps.get_mut(&j).unwrap().tree.hash();
-                    let mut c16 = vec![];
-                    let d = self.reps[&i].tree.diff_with(self.reps[&j].tree.as_ref(), &mut c16);
-                    (d, c16)
-                }));
-                let (d, c16) = match out {
-                    Ok(x) => x,
-                    Err(_) => {
-                        self.fail("C15", "panic while hashing / diffing during a pull".into());
-                        return Ok("panic".into());
+                match self.pull_internal(i, j, join) {
+                    Some((ranges, f)) => {
+                        let st: Vec<(Vec<u8>, Vec<u8>)> = self.reps[&i].store.iter().map(|(k, (_, v))| (k.clone(), v.clone())).collect();
+                        Ok(format!("{} | {} | {}", show_drs(&ranges), show_kvs(&f), show_kvs(&st)))
                     }
+                    None => Ok("panic".into()),
+                }
+            }
+            ["rsettle", m] => {
+                // the fair quiescent phase itself (mirrors Driver.lean `settle`), then the C05/C06 oracle
+                self.count("rsettle");
+                let join = match *m {
+                    "join" => true,
+                    "peer" => false,
+                    _ => return Err(bad()),
                 };
-                for mmsg in c16 {
-                    self.fail("C16", mmsg);
-                }
-                let ranges = match d {
-                    DiffOut::Ok(d) => d,
-                    _ => {
-                        self.fail("C15", "diff during a pull panicked or was not serialisable".into());
-                        return Ok("panic".into());
-                    }
+                let mut ids: Vec<u64> = self.reps.keys().cloned().collect();
+                ids.sort();
+                let stores = |e: &Exec| -> Vec<BTreeMap<Vec<u8>, Vec<u8>>> {
+                    ids.iter().map(|i| e.reps[i].store.iter().map(|(k, (_, v))| (k.clone(), v.clone())).collect()).collect()
                 };
-                let mut fetched: Vec<(Vec<u8>, Vec<u8>, Vec<u8>)> = vec![];
-                for (k, (kd, v)) in self.reps[&j].store.iter() {
-                    if ranges.iter().any(|r| r.0 <= *k && *k <= r.1) {
-                        fetched.push((k.clone(), kd.clone(), v.clone()));
+                let prop: &'static str = if ids.len() == 2 { "C05" } else { "C06" };
+                if ids.len() == 2 {
+                    let (a, b) = (ids[0], ids[1]);
+                    let s0 = stores(self);
+                    let keys: std::collections::BTreeSet<_> = s0[0].keys().chain(s0[1].keys()).cloned().collect();
+                    let d = keys.iter().filter(|k| s0[0].get(*k) != s0[1].get(*k)).count();
+                    for _ in 0..d {
+                        let s = stores(self);
+                        if s[0] == s[1] {
+                            continue;
+                        }
+                        if self.pull_internal(b, a, join).is_none() || self.pull_internal(a, b, join).is_none() {
+                            return Ok("panic".into());
+                        }
+                    }
+                } else {
+                    for _ in 0..200 {
+                        let before = stores(self);
+                        for &i in &ids {
+                            for &j in &ids {
+                                if i != j && self.pull_internal(i, j, join).is_none() {
+                                    return Ok("panic".into());
+                                }
+                            }
+                        }
+                        if stores(self) == before {
+                            break;
+                        }
                     }
                 }
-                let rep = self.reps.get_mut(&i).unwrap();
-                for (k, kd, v) in &fetched {
-                    let merged = match rep.store.get(k) {
-                        Some((_, old)) if join && old >= v => old.clone(),
-                        _ => v.clone(),
-                    };
-                    let res = catch_unwind(AssertUnwindSafe(|| rep.tree.ups(k, kd, &merged, None)));
-                    if !matches!(res, Ok(Ok(()))) {
-                        self.fail("C15", "upsert panicked while absorbing fetched keys".into());
-                        return Ok("panic".into());
+                let mut roots = vec![];
+                for i in &ids {
+                    let rep = self.reps.get_mut(i).unwrap();
+                    match catch_unwind(AssertUnwindSafe(|| rep.tree.hash())) {
+                        Ok(h) => roots.push(hex(&h)),
+                        Err(_) => roots.push("panic".into()),
                     }
-                    rep.store.insert(k.clone(), (kd.clone(), merged));
                 }
-                let f: Vec<(Vec<u8>, Vec<u8>)> = fetched.iter().map(|x| (x.0.clone(), x.2.clone())).collect();
-                let st: Vec<(Vec<u8>, Vec<u8>)> = self.reps[&i].store.iter().map(|(k, (_, v))| (k.clone(), v.clone())).collect();
-                Ok(format!("{} | {} | {}", show_drs(&ranges), show_kvs(&f), show_kvs(&st)))
+                let st = stores(self);
+                self.tick(prop);
+                if st.windows(2).any(|w| w[0] != w[1]) {
+                    self.fail(prop, "replicas hold different content after the fair quiescent phase".into());
+                }
+                if roots.windows(2).any(|w| w[0] != w[1]) {
+                    self.fail(prop, "replicas report different root hashes after the fair quiescent phase".into());
+                }
+                if join && st.iter().any(|s| *s != self.written) {
+                    self.fail(prop, "a replica does not hold the join of everything written (lost or invented data)".into());
+                }
+                Ok(roots.join(" "))
             }
             ["rhash", r] => {
                 self.count("rhash");
@@ -1009,6 +1124,7 @@ impl Exec {
                 self.tick("C14");
                 if l as u32 != ref_level(&d, base) {
                     self.fail("C14", format!("level of digest {} under base {} is {}, reference says {}", hex(&d), base, l, ref_level(&d, base)));
+                    self.fail("C18", format!("level base {}: digest {} is placed on level {}, the documented derivation gives {}", base, hex(&d), l, ref_level(&d, base)));
                 }
                 Ok(l.to_string())
             }
